@@ -3,6 +3,7 @@ package ref
 import (
 	"crypto/sha256"
 	"errors"
+	"hash"
 )
 
 // Sequential specification of a Fiat–Shamir transcript (property C15).
@@ -32,6 +33,20 @@ func SHA256Chunks(chunks [][]byte) []byte {
 	}
 	d := sha256.Sum256(all)
 	return d[:]
+}
+
+// StdChunks is the byte-stream hash newH (a standard-library constructor such as sha512.New) of the
+// concatenation of the chunks, computed on a fresh instance.
+func StdChunks(newH func() hash.Hash) ChunkHash {
+	return func(chunks [][]byte) []byte {
+		h := newH()
+		var all []byte
+		for _, c := range chunks {
+			all = append(all, c...)
+		}
+		h.Write(all)
+		return h.Sum(nil)
+	}
 }
 
 var (
